@@ -11,6 +11,11 @@ BUILD="${VERIF_BUILD:-$VERIF/.build}" # seeded-change trials use their own build
 export GOFLAGS=-mod=mod GOPROXY=off
 unset GOSUMDB GOTOOLCHAIN 2>/dev/null
 mkdir -p "$BUILD" "${VERIF_OUT:-$VERIF}/evidence" "${VERIF_OUT:-$VERIF}/replay"
+# everything temporary (go build work directories, interp's FIFO directories) lives
+# under the build directory and goes away with this invocation; nothing is left in /tmp
+export TMPDIR="$BUILD/tmp.$$"
+mkdir -p "$TMPDIR"
+trap 'rm -rf "$TMPDIR"' EXIT
 
 modfile() {
 	# generated module file so that the same harness can be pointed at a scratch copy
@@ -55,9 +60,11 @@ RACEARG=()
 if [ "$MODE" = --replay ]; then
 	if needs_race "$ID" thorough; then build_vcheck race; RACEARG=(-racebin "$BUILD/vcheck-race"); fi
 	if needs_tools "$ID"; then build_tools; fi
-	exec "$BUILD/vcheck" -prop "$ID" -seed "$SEED" -repo "$REPO" -verif "$VERIF" -build "$BUILD" "${RACEARG[@]}" -replay "${3:?replay file}"
+	"$BUILD/vcheck" -prop "$ID" -seed "$SEED" -repo "$REPO" -verif "$VERIF" -build "$BUILD" "${RACEARG[@]}" -replay "${3:?replay file}"
+	exit $?
 fi
 case "$MODE" in quick|thorough) ;; *) echo "bad tier $MODE"; exit 2 ;; esac
 if needs_race "$ID" "$MODE"; then build_vcheck race; RACEARG=(-racebin "$BUILD/vcheck-race"); fi
 if needs_tools "$ID"; then build_tools; fi
-exec "$BUILD/vcheck" -prop "$ID" -tier "$MODE" -seed "$SEED" -repo "$REPO" -verif "$VERIF" -build "$BUILD" "${RACEARG[@]}" ${VERIF_N:+-n "$VERIF_N"}
+"$BUILD/vcheck" -prop "$ID" -tier "$MODE" -seed "$SEED" -repo "$REPO" -verif "$VERIF" -build "$BUILD" "${RACEARG[@]}" ${VERIF_N:+-n "$VERIF_N"}
+exit $?
